@@ -496,6 +496,120 @@ def rule_sentinel(ctx, rep):
     rep.floor('R-SENTINEL', n, 6)
 
 
+def rule_none_stays_none(ctx, rep):
+    """"No limit" is passed as None by the blocks that must not be re-broken (headings, table rows): the line
+    producers must hand that None on and must not replace it by the renderer-wide setting. span_to_lines is
+    interpreted with max_line_length=None on a renderer whose own setting is a number, the wrapping stage replaced
+    by a recorder: the limit that stage gets must be None."""
+    from ..interp import Interp, Oracle, Raised, enumerate_paths, Unknown
+    from .. import templates as T
+    model = ctx.model
+    rule = 'R-NONE-STAYS-NONE'
+    rep.rule(rule, 'a line producer that is given no limit hands no limit on (it does not fall back to the renderer-wide setting)')
+    n = 0
+    for cfg in [c for c in ctx.configs() if c.label == 'MarkdownRenderer' and c.error is None]:
+        s2l = cfg.cls.lookup('span_to_lines')
+        f2l = cfg.cls.lookup('fragments_to_lines')
+        mf = cfg.cls.lookup('make_fragments')
+        if not (s2l and f2l and mf):
+            raise AnalysisError('anchor vanished: MarkdownRenderer.span_to_lines / fragments_to_lines / make_fragments')
+        rep.instance(rule)
+        got = []
+
+        def run_(oracle, cfg=cfg):
+            it = Interp(model, loop_bound=2)
+            it.reset_run(oracle)
+            T.install_string_hooks(it)
+            r = T.clone_obj(cfg.obj)
+            r.attrs['max_line_length'] = 17
+            it.func_hooks[mf[1].qualname] = lambda interp, fi, args, kwargs: []
+            seen = []
+
+            def rec(interp, fi, args, kwargs):
+                names = fi.params()
+                vals = dict(zip(names, args))
+                vals.update(kwargs)
+                seen.append(vals.get('max_line_length', 'not passed'))
+                return []
+            it.func_hooks[f2l[1].qualname] = rec
+            try:
+                it.call_function(s2l[1], [r, Unknown('tokens')], {'max_line_length': None})
+            except Raised as e:
+                return ['raises %s' % e.exc.kind]
+            return seen
+        for trace, seen in enumerate_paths(run_, 64):
+            got.extend(seen)
+        n += 1
+        ok = bool(got) and all(x is None or x == 'not passed' for x in got)
+        rep.obligation(rule, ok, {'config': cfg.key(), 'limit handed to the wrapping stage': [repr(x) for x in got]})
+        if not ok:
+            rep.find(rule, s2l[1].short, 'none-replaced',
+                     '%s, called without a limit on a renderer whose max_line_length is 17, hands the wrapping stage %s: blocks '
+                     'that pass None because they must not be re-broken (ATX headings, table rows) are wrapped and cut'
+                     % (s2l[1].short, sorted(set(map(repr, got)))), loc(model.unit_of(s2l[1]), s2l[1].node))
+    rep.floor(rule, n, 1)
+
+
+def rule_lines_intact(ctx, rep):
+    """A container puts its prefix in front of the lines of its children and does nothing else to them: the two
+    trailing spaces of a hard line break, or the spaces of a code line, are content. Every Markdown render method that
+    takes a limit is interpreted with the child line producer replaced by a stub that yields labelled lines; each
+    labelled line must reach the result through concatenation only."""
+    from ..interp import Interp, Oracle, Raised, enumerate_paths, GenVal, LoopTruncated, Obj, Unknown
+    from .. import templates as T
+    from .c09 import labels_in
+    model = ctx.model
+    rule = 'R-LINES-INTACT'
+    rep.rule(rule, 'containers only prefix the lines of their children (no stripping or rewriting of a child line)')
+    n = 0
+    for cfg in [c for c in ctx.configs() if c.label == 'MarkdownRenderer' and c.error is None]:
+        b2l = cfg.cls.lookup('blocks_to_lines')
+        if b2l is None or b2l[0] != 'method':
+            raise AnalysisError('anchor vanished: MarkdownRenderer.blocks_to_lines')
+        for name, f in sorted(_methods_with_limit(cfg)):
+            calls_producer = any(isinstance(x, ast.Attribute) and x.attr == b2l[1].name for x in ast.walk(f.node))
+            if not calls_producer or f is b2l[1]:
+                continue
+            rep.instance(rule)
+            lost = {}
+            seen = set()
+            paths = 0
+
+            def run_(oracle, cfg=cfg, f=f):
+                it = Interp(model, loop_bound=3, while_bound=4)
+                it.reset_run(oracle)
+                T.install_string_hooks(it)
+                it.func_hooks[b2l[1].qualname] = lambda interp, fi, args, kwargs: [T.Taint('L1'), T.Taint('L2')]
+                tok = T.AbsToken(cfg, None) if hasattr(T, 'AbsToken') and False else Unknown('token')
+                try:
+                    g = it.call_function(f, [T.clone_obj(cfg.obj), tok], {'max_line_length': None})
+                except Raised as e:
+                    return ('raise', e.exc.kind)
+                except LoopTruncated:
+                    return ('trunc', None)
+                return ('ok', g.items if isinstance(g, GenVal) else g)
+            for trace, (kind, lines) in enumerate_paths(run_, 300):
+                if kind != 'ok':
+                    continue
+                paths += 1
+                labs = set()
+                labels_in(lines, labs, lossy=lost)
+                seen |= labs
+            if paths == 0:
+                continue
+            n += 1
+            problems = []
+            for lab in ('L1', 'L2'):
+                if lost.get(lab):
+                    problems.append('a line of a child reaches the output only through %s' % '/'.join(sorted(lost[lab])))
+            rep.obligation(rule, not problems, {'method': f.short, 'config': cfg.key(), 'paths': paths, 'problems': sorted(set(problems))})
+            for p_ in sorted(set(problems)):
+                rep.find(rule, f.short, 'child-line-rewritten', '%s: %s - the trailing spaces of a hard line break (or of a code '
+                         'line) are lost when the block is written back' % (f.short, p_), loc(model.unit_of(f), f.node),
+                         witness='> alpha  \n> beta')
+    rep.floor(rule, n, 2)
+
+
 def rule_hardbreak(ctx, rep):
     """Greedy line filling and hard-break handling: make_words + fragments_to_lines are interpreted over the
     abstract fragment sequence  <word A> <word B> <hard line break> <word C> <word D>  with an unknown limit; on every path the
@@ -563,4 +677,6 @@ def run(ctx):
     rule_budget(ctx, rep)
     rule_fill(ctx, rep)
     rule_sentinel(ctx, rep)
+    rule_none_stays_none(ctx, rep)
+    rule_lines_intact(ctx, rep)
     rep.assume('len(a + b) = len(a) + len(b); len(s * n) = len(s) * n for n >= 0')
